@@ -18,7 +18,8 @@ def gen_spec(rng, npipes):
     for _ in range(npipes):
         if rng.random() < 0.6:
             tick += rng.randint(0, 7)
-        n = rng.randint(1, 7)
+        # sometimes more than ten operators: operator numbers then have one and two digits ("op2", "op10"), which is where an order by text differs
+        n = rng.randint(1, 7) if rng.random() < 0.8 else rng.randint(11, 15)
         ops = []
         for i in range(n):
             shape = rng.random()
@@ -26,6 +27,8 @@ def gen_spec(rng, npipes):
                 par = [i - 1] if i else []
             elif shape < 0.4:
                 par = []
+            elif i >= 10 and shape < 0.7:
+                par = sorted({rng.randrange(1, 9), rng.randrange(9, i)} | ({rng.randrange(i)} if rng.random() < 0.3 else set()))
             else:
                 par = sorted(rng.sample(range(i), rng.randint(0, min(3, i))))
             ops.append((par, rng.choice(NUMS), rng.choice(LAWS), rng.choice([None, None, 0, 0.0, 4, 0.5, 1e-9]), rng.choice(NUMS)))
